@@ -233,4 +233,58 @@ PROPS["C17"] = {
     "assumptions": ["declared body lengths up to 16 MiB", "the attacker's connection has not negotiated compression (compressed bodies after negotiation are reported as unmodelled and checked for crash / canary only)"],
 }
 
+
+def c18_extra(tier, seed):
+    """The concurrent scenario families of C01/C02/C07/C08/C14/C16 (the harness's e2e streams) run once more
+    with the race detector compiled in; any report is a violation, keyed by the pair of access sites."""
+    import glob, os, shutil, tempfile
+    from . import core
+    core.build_harness(race=True)
+    sizes = {"storm": (2, 12), "core": (150, 3000), "ks": (60, 1500), "prep": (60, 1500), "events": (60, 1500), "retry": (150, 4000), "topo": (6, 60), "reconn": (6, 40)}
+    out = {"violations": [], "evaluations": 0, "distinct": [], "coverage": {"race_detector_runs": {}}, "notes": []}
+    for name, (q, t) in sizes.items():
+        n = t if tier == "thorough" else q
+        d = tempfile.mkdtemp(prefix="vhrace", dir=core.WORK)
+        try:
+            env = dict(os.environ, GORACE="halt_on_error=0 history_size=3 log_path=" + os.path.join(d, "r"))
+            f = os.path.join(d, "out.txt")
+            p = core.vh(["gen", name, "-seed", str(seed), "-n", str(n), "-tier", tier, "-out", f], race=True, env=env, timeout=7200)
+            lines = len(open(f).read().splitlines()) if os.path.exists(f) else 0
+            logs = glob.glob(os.path.join(d, "r.*"))
+            keys = []
+            if logs:
+                k = core.vh(["racekeys"] + logs)
+                keys = [l for l in k.stdout.splitlines() if l.strip()]
+            out["evaluations"] += lines
+            out["distinct"] += [("race:" + name, i) for i in range(lines)]
+            out["coverage"]["race_detector_runs"][name] = {"cases": lines, "reports": len(keys), "exit": p.returncode}
+            if p.returncode not in (0, 66) and lines == 0:
+                raise core.Broken("race-enabled stream %s failed" % name, (p.stdout + p.stderr)[-2000:])
+            for key in keys:
+                keep = os.path.join(core.ROOT, "replays", "C18-race-%s-%s.log" % (name, abs(hash(key)) % 10**8))
+                os.makedirs(os.path.dirname(keep), exist_ok=True)
+                with open(keep, "w") as w:
+                    for lf in logs:
+                        w.write(open(lf).read())
+                out["violations"].append({"stream": None, "op": "vh-race gen %s -seed %d -n %d -tier %s" % (name, seed, n, tier), "real": key,
+                                          "key": "C18:race:" + key, "what": "data race reported by the race detector: %s (full report: %s)" % (key, keep)})
+        finally:
+            shutil.rmtree(d, ignore_errors=True)
+    return out
+
+
+PROPS["C18"] = {
+    "module": "CqlVerif.Props.C18",
+    "gens": ["locks"],
+    "race": True,
+    "streams": [{"name": "race", "quick": 2, "thorough": 60, "cache": False}],
+    "extra": c18_extra,
+    "shrink": False,
+    "claim": "Lean theorem discipline_holds, kernel-evaluated over access facts regenerated from /repo's typed SSA on every run (every read/write of a field of Proxy, client, request, ClientConn, connPool, Session, Cluster, Conn, the load balancer and the pending table, with the locks certainly held there - intra-procedural must-hold dataflow joined with the intersection over all call sites on the VTA call graph - and the goroutine roots the function runs on): each field written after initialisation has a declared discipline (guarded by a lock in the right mode / confined to one goroutine / written only at start-up) that every access obeys; tied to execution by the race detector: the race stream (16-32 clients on all cores: pipelined handshakes with compression, concurrent USE of new keyspaces, PREPARE/EXECUTE with UNPREPARED, connection loss, topology changes, schema events) and the e2e streams of C01/C02/C07/C08/C14/C16 rebuilt with -race",
+    "note": "partial: the implication 'discipline obeyed => no data race' (lockset soundness) is the standard argument and is not yet a Lean theorem here; races on objects of the pinned protocol library (shared frames) are invisible to the field-level facts and are found only by the race-detector runs (three such defects were found and fixed); 'reviewed' disciplines are stated ordering arguments. Trusted: Lean kernel, extractor (go/ssa, VTA call graph), Go race detector",
+    "rule": "race: each scenario = child process of the -race harness with N clients x families for 1.2 s (quick) / 4 s (thorough); every family alone, all together, random subsets; observation = set of racing access-site pairs (function names) from the detector's reports, plus process death; race_detector_runs: storm/core/ks/prep/events/retry/topo/reconn streams under -race; distinct = distinct scenario or stream case",
+    "trusted_base": [KERNEL, HARNESS, "Gen/LockFacts.lean regenerated by `vh extract locks` (go/packages, go/ssa, callgraph/vta)", "Spec/LockDiscipline.lean hand-written", "Go race detector (ThreadSanitizer runtime)"],
+    "assumptions": ["Proxy.Connect completes before Serve accepts clients (start-up writes)", "sync.Map, atomic and channel fields are race-free by construction and are not tracked"],
+}
+
 NOT_APPLICABLE = {}
